@@ -64,45 +64,156 @@ def showOptSample : Option Sample → String
   | none => "none"
   | some s => showSample s
 
-def parseFilter? (fk tr dt dv : String) : Option (Option DCF) :=
-  if fk = "none" then some none
-  else if fk = "dcf" then
-    match tr.toNat?, dt.toNat?, hexNat? dv 16 with
-    | some tr, some dt, some dv => some (some { trigger := tr, dbType := dt, dbVal := dv })
+def parseFilter? (fk tr dt dv : String) : Option FilterReq :=
+  if fk = "none" then some .none
+  else match tr.toNat?, dt.toNat?, hexNat? dv 16 with
+    | some tr, some dt, some dv =>
+      let f : DCF := { trigger := tr, dbType := dt, dbVal := dv }
+      if fk = "dcf" then some (.dcf f)
+      else if fk = "badtype" then some .otherObject
+      else if fk = "nonobj" then some .notObject
+      else if fk = "nobody" then some (.noBody f)
+      else if fk.startsWith "len" then ((fk.drop 3).toNat?).map (fun n => .sized f n)
+      else none
     | _, _, _ => none
-  else none
 
 def errName : CreateErr → String
   | .unexpected => "BadUnexpectedError"
   | .unsupported => "BadMonitoredItemFilterUnsupported"
   | .deadbandInvalid => "BadDeadbandFilterInvalid"
+  | .notAllowed => "BadFilterNotAllowed"
+  | .decoding => "BadDecodingError"
+
+/-! ### arm tags (which branches of the model an op took; see GUIDE "Arm coverage") -/
+
+def fClass : F → String
+  | .nan => "nan"
+  | .inf _ => "inf"
+  | .fin _ m _ => if m = 0 then "zero" else "fin"
+
+/-- how the rounding of an exact dyadic went -/
+def roundClass (m : Nat) (e : Int) : String :=
+  if m = 0 then "r-zero"
+  else
+    let q : Int := max (e + Int.ofNat (bitlen m) - 53) (-1074)
+    if q ≤ e then (if e + Int.ofNat (bitlen m) > 1024 then "r-overflow" else "r-exact")
+    else
+      let sh := (q - e).toNat
+      let mant := m / 2 ^ sh
+      let rem := m % 2 ^ sh
+      let half := 2 ^ (sh - 1)
+      let mant' := if rem > half ∨ (rem = half ∧ mant % 2 = 1) then mant + 1 else mant
+      if q + Int.ofNat (bitlen mant') > 1024 then "r-overflow"
+      else if rem = 0 then "r-exact-shift" else if rem = half then "r-tie" else if rem > half then "r-up" else "r-down"
+
+def subRoundClass : F → F → String
+  | .fin n1 m1 e1, .fin n2 m2 e2 =>
+    let lo := min e1 e2
+    let d : Int := signed n1 (scale m1 e1 lo) - signed n2 (scale m2 e2 lo)
+    roundClass d.natAbs lo
+  | _, _ => "r-special"
+
+def kindTag : Val → String
+  | .null => "k-null"
+  | .int k v => s!"k-int{k}" ++ (if v.natAbs > 2 ^ 53 then ",k-int-beyond-2^53" else "")
+  | .flt _ => "k-flt"
+  | .dbl _ => "k-dbl"
+  | .str _ => "k-str"
+  | .bool _ => "k-bool"
+
+/-- arms of `compare_value_option` / `compare_value` / `abs_compare` -/
+def valueArms (f : DCF) (v l : Val) : String :=
+  match v, l with
+  | .null, .null => "v-null-null"
+  | .null, _ => "v-null-some"
+  | _, .null => "v-some-null"
+  | v, l =>
+    if f.dbType = 0 then (if veq v l then "v-plain-eq" else "v-plain-ne")
+    else match asF64 v, asF64 l with
+      | some a, some b =>
+        let d := decode64 f.dbVal
+        if flt0 d then "v-err-negative"
+        else if f.dbType = 1 then
+          let diff := fabs (fsub a b)
+          let cls :=
+            if diff = .nan then "v-abs-nan"
+            else if fle diff d && fle d diff then "v-abs-eq-deadband"
+            else if fle diff d then "v-abs-within"
+            else "v-abs-beyond"
+          cls ++ "," ++ subRoundClass a b ++ ",d-" ++ fClass d
+        else "v-err-type"
+      | some _, none => "v-mixed-" ++ (if veq v l then "eq" else "ne")
+      | none, some _ => "v-mixed-" ++ (if veq v l then "eq" else "ne")
+      | none, none => if veq v l then "v-nonnum-eq" else "v-nonnum-ne"
+
+def sampleArms (it : Item) (s : Sample) (reported : Bool) : String :=
+  let base := kindTag s.value ++ "," ++ (if reported then s!"rep,ttr{min it.ttr 4}" else "norep")
+  match it.last with
+  | none => base ++ ",s-first"
+  | some l =>
+    match it.filter with
+    | .none => base ++ ",nf-" ++ (if optEq s.value l.value then "same" else "diff")
+    | .dcf f =>
+      let st := if s.status = l.status then "st-same" else "st-diff"
+      let t := s!"t{f.trigger}"
+      if f.trigger = 0 then base ++ s!",{t},{st}"
+      else
+        let va := if s.status = l.status then "," ++ valueArms f s.value l.value else ""
+        let ts := if f.trigger = 2 ∧ s.status = l.status ∧ compareValueOption current f s.value l.value then
+            (if s.src ≠ l.src then ",ts-src-diff" else if s.srv ≠ l.srv then ",ts-srv-diff" else ",ts-same")
+          else ""
+        base ++ s!",{t},{st}" ++ va ++ ts
+
+def dcfArms (f : DCF) : String :=
+  let d := decode64 f.dbVal
+  let tr := if f.trigger > 2 then "f-trigger-bad" else s!"f-trigger{f.trigger}"
+  let ty := if f.dbType = 0 then "f-db-none" else if f.dbType = 1 then "f-db-abs"
+    else if f.dbType = 2 then "f-db-percent" else "f-db-unknown"
+  let dv := if f.dbType = 0 then "" else
+    "," ++ (match d with
+      | .nan => "f-d-nan"
+      | .inf n => if n then "f-d-neginf" else "f-d-posinf"
+      | .fin n m _ => if m = 0 then (if n then "f-d-negzero" else "f-d-zero") else if n then "f-d-negative" else "f-d-positive")
+  tr ++ "," ++ ty ++ dv
+
+def filterArms : FilterReq → String
+  | .none => "f-none"
+  | .dcf f => dcfArms f
+  | .otherObject => "f-other-object"
+  | .notObject => "f-not-object"
+  | .noBody _ => "f-no-body"
+  | .sized f len =>
+    (if len < 4 then "f-len-lt4" else if len < 16 then (if len = 15 then "f-len-15" else "f-len-4to14")
+     else if len = 16 then "f-len-16" else "f-len-gt16") ++ "," ++ dcfArms f
 
 def dstep (s : DState) (toks : List String) : DState × String :=
   match toks with
   | ["reset", ttr, fk, tr, dt, dv] =>
     match ttr.toNat?, parseFilter? fk tr dt dv with
     | some ttr, some f =>
-      match create current ttr f with
-      | .ok it => ({ it := some it }, "ok")
-      | .error e => ({ it := none }, "err " ++ errName e)
+      match createReq current ttr f with
+      | .ok it => ({ it := some it }, "ok @@ cr-ok," ++ filterArms f)
+      | .error e => ({ it := none }, "err " ++ errName e ++ " @@ cr-err-" ++ errName e ++ "," ++ filterArms f)
     | _, _ => ({ it := none }, "bad-op")
   | ["modify", ttr, fk, tr, dt, dv] =>
     match s.it, ttr.toNat?, parseFilter? fk tr dt dv with
     | some it, some ttr, some f =>
-      match modify current it ttr f with
-      | (it, none) => ({ it := some it }, "ok")
-      | (it, some e) => ({ it := some it }, "err " ++ errName e)
-    | none, some _, some _ => (s, "err no-item")
+      match modifyReq current it ttr f with
+      | (it, none) => ({ it := some it }, "ok @@ mod-ok," ++ filterArms f)
+      | (it, some e) => ({ it := some it }, "err " ++ errName e ++ " @@ mod-err-" ++ errName e ++ "," ++ filterArms f)
+    | none, some _, some _ => (s, "err no-item @@ mod-no-item")
     | _, _, _ => (s, "bad-op")
   | ["sample", st, v, src, srv] =>
     match parseOptNat? st, parseVal? v, parseOptInt? src, parseOptInt? srv with
     | some st, some v, some src, some srv =>
       match s.it with
-      | none => (s, "err no-item")
+      | none => (s, "err no-item @@ s-no-item")
       | some it =>
-        let (it', n) := sample current it { status := st, value := v, src := src, srv := srv }
+        let smp : Sample := { status := st, value := v, src := src, srv := srv }
+        let (it', n) := sample current it smp
         ({ it := some it' },
-          s!"ok rep={boolStr n.isSome} n={showOptSample n} last={showOptSample it'.last}")
+          s!"ok rep={boolStr n.isSome} n={showOptSample n} last={showOptSample it'.last} @@ " ++
+            sampleArms it smp n.isSome)
     | _, _, _, _ => (s, "bad-op")
   | _ => (s, "bad-op")
 
